@@ -200,6 +200,38 @@ def rom_func(aw=3, dw=4):
 
 
 @design
+def rom_padded(aw=3, dw=4, kind='dict'):
+    """ROM with partial data and pad_with_zeros=True: unlisted addresses read 0"""
+    a, = _io([aw])
+    data = {0: 3, 2: 9 % (2 ** dw), 5: 1} if kind == 'dict' else [7 % (2 ** dw), 1, 2]
+    rom = pyrtl.RomBlock(bitwidth=dw, addrwidth=aw, romdata=data, name='rom', asynchronous=True,
+                         pad_with_zeros=True)
+    _out(rom[a])
+
+
+@design
+def const_fold(w=4):
+    """every foldable op on several constant pairs (both operands constant, and one constant)"""
+    a, = _io([w])
+    m = (1 << w) - 1
+    pairs = [(5 & m, 3 & m), (m, m), (0, m), (6 & m, 9 & m), (1, 1)]
+    outs = []
+    for i, (x, y) in enumerate(pairs):
+        cx, cy = pyrtl.Const(x, bitwidth=w), pyrtl.Const(y, bitwidth=w)
+        outs.append(cx.nand(cy) ^ a)
+        outs.append((cx & cy) ^ a)
+        outs.append((cx | cy) ^ a)
+        outs.append((cx ^ cy) ^ a)
+        outs.append((~cx) ^ a)
+        outs.append(a.nand(cx) ^ (a & cy) ^ (a | cx))
+    r = pyrtl.Register(w, 'rk')
+    r.next <<= pyrtl.Const(5 & m, bitwidth=w).nand(pyrtl.Const(3 & m, bitwidth=w))
+    outs.append(r)
+    for i, o in enumerate(outs):
+        _out(o, 'out%d' % i)
+
+
+@design
 def shared_subexp(w=3):
     a, b = _io([w, w])
     _out((a - b) | (b - a)[:w + 1], 'out0')
@@ -332,6 +364,7 @@ def family(tier='quick', seed=0):
     add('consts', w=3)
     add('counter', w=3)
     add('counter', w=3, reset_value=5)
+    add('counter', w=3, reset_value=0)
     add('regs_reset', w=4)
     add('reg_swap', w=2)
     add('reg_const_next', w=2)
@@ -344,6 +377,11 @@ def family(tier='quick', seed=0):
     add('mem_feeds_logic')
     add('rom_list')
     add('rom_func')
+    add('rom_padded')
+    add('rom_padded', kind='list')
+    add('const_fold', w=4)
+    add('const_fold', w=1)
+    add('const_fold', w=3)
     add('shared_subexp', w=3)
     add('fanout', w=2, n=5)
     add('wire_chain', w=3)
@@ -376,7 +414,7 @@ def wide_ops(w=65, w2=None):
     _out(pyrtl.concat(a, b), 'o_cat2')
     _out(pyrtl.concat(a, b, a), 'o_cat3')
     _out(pyrtl.concat(b, a, s, b), 'o_cat4')
-    _out(a[1:], 'o_sl1')
+    _out(a[1:] if w > 1 else a, 'o_sl1')
     _out(a[::-1], 'o_rev')
     _out(a[::3], 'o_stride')
     _out(pyrtl.concat(a, b)[w2 - 1:w2 + 2], 'o_straddle')
